@@ -152,9 +152,13 @@ def run(F, res, tier):
     # ---- R4
     for p, ty in (("ide::ide::references::references", "HashSet"), ("ide::ide::highlight_related::highlight_related", "HashSet")):
         f = F.fn(p)
-        has_set = any("std::collections::hash::set::HashSet" in l["ty"] for l in f.d["locals"])
+        has_set = any(("collections::hash::set::HashSet" in l["ty"] or "collections::btree::set::BTreeSet" in l["ty"] or "indexmap::set::IndexSet" in l["ty"])
+                      for l in f.d["locals"])
+        # .. or through a list that is sorted and then dedup()ed as whole values (equal entries are adjacent after the sort)
+        names = {FL.short(callee(t) or callee_def(t) or "").rsplit("::", 1)[-1] for q in [p] + list(F.closures_of(p)) for _b, t in F.fns[q].calls()}
+        sorted_dedup = "dedup" in names and bool(names & {"sort", "sort_by_key", "sort_by", "sort_unstable", "sort_unstable_by_key", "sort_unstable_by"})
         res.ob("R4", "set/" + p.rsplit("::", 1)[-1], "%s collects its result through a set keyed by (file, range): nothing is listed twice" % p.rsplit("::", 1)[-1],
-               has_set, where=f.loc(), how="HashSet local present: %s" % has_set)
+               has_set or sorted_dedup, where=f.loc(), how="set local present: %s; sorted and dedup()ed as whole values: %s" % (has_set, sorted_dedup))
     import re as _re
     rf = "ide::ide::references::references"
     elems = set()
